@@ -48,6 +48,7 @@ type SchedEvent struct {
 	Site string `json:"site"`
 	Kind string `json:"kind"` // op | preempt
 	What string `json:"what"`
+	Repo string `json:"repo,omitempty"` // innermost position inside the repository when Site lies outside it (module cache, std)
 }
 
 type Frame struct {
